@@ -150,7 +150,8 @@ def apply_pre(coll, pdf, pre, names, n=None, method=None, tag="w", blockwise=Fal
         rest = [c for c in pdf.columns if c not in cols]
         out = coll.groupby(cols, dropna=False, sort=False).agg({c: "first" for c in rest}, split_out=n or 2).reset_index()[list(pdf.columns)]
     elif how == "setindex":
-        out = coll.assign(**{tag + "ix": coll[cols[0]]}).set_index(tag + "ix", npartitions=n, shuffle_method=method)
+        # (no npartitions=: set_index(npartitions=n) reports n partitions whatever it builds - the finding C41 'set_index:auto:count')
+        out = coll.assign(**{tag + "ix": coll[cols[0]]}).set_index(tag + "ix", shuffle_method=method)
     else:
         return coll
     if blockwise:
